@@ -151,6 +151,42 @@ def incr_in_range(lines, l0, l1):
     return cnt
 
 
+def flip_in_range(lines, l0, l1):
+    """a == b  ->  b == a (and !=) for simple operands that stand alone between ( && || and ) && || ; outside literals."""
+    hi = min(l1, len(lines))
+    src = "\n".join(lines[l0 - 1:hi])
+    opnd = r"[A-Za-z_][\w]*(?:(?:\.|->|::)[A-Za-z_]\w*)*(?:\(\))?|\d+"
+    rx = re.compile(r"(?P<pre>(?:\(|&&|\|\|)\s*)(?P<a>%s)\s*(?P<op>==|!=)\s*(?P<b>%s)(?P<post>\s*(?:\)|&&|\|\|))" % (opnd, opnd))
+    cnt = 0
+    new = ""
+    for c, t in split_code(src):
+        if c:
+            t, k = rx.subn(lambda m: "%s%s %s %s%s" % (m.group("pre"), m.group("b"), m.group("op"), m.group("a"), m.group("post")), t)
+            cnt += k
+        new += t
+    lines[l0 - 1:hi] = new.split("\n")
+    return cnt
+
+
+def braces_in_range(lines, l0, l1):
+    """if (...)\n  stmt;   ->   if (...) {\n  stmt; }   for two-line forms with balanced parentheses."""
+    cnt = 0
+    i = l0 - 1
+    hi = min(l1, len(lines)) - 1
+    while i < hi:
+        a, b = lines[i], lines[i + 1]
+        if re.match(r"^\s*(?:else\s+)?if\s*\(.*\)\s*$", a) and a.count("(") == a.count(")") and '"' not in a and "//" not in a \
+                and re.match(r"^\s*[A-Za-z_*(+\-][^;{}]*;\s*$", b) and not re.match(r"^\s*(?:if|for|while|else|do|switch|case|return\s*$)\b", b) \
+                and b.count("(") == b.count(")") and '"' not in b and "//" not in b and "OPM_THROW" not in b:
+            lines[i] = a.rstrip() + " {"
+            lines[i + 1] = b.rstrip() + " }"
+            cnt += 1
+            i += 2
+        else:
+            i += 1
+    return cnt
+
+
 def make_copy():
     d = tempfile.mkdtemp(prefix="vneutral_", dir="/tmp")
     # committed sources (HEAD), so that a seed patch temporarily applied to /repo's working tree cannot leak into the copy
@@ -175,6 +211,10 @@ def apply(root, fns, mode):
                 total += rename_in_range(lines, f["l"], f["l_end"], local_names(f))
             if mode in ("incr", "both"):
                 total += incr_in_range(lines, f["l"], f["l_end"])
+            if mode == "flip":
+                total += flip_in_range(lines, f["l"], f["l_end"])
+            if mode == "braces":
+                total += braces_in_range(lines, f["l"], f["l_end"])
         open(path, "w", encoding="utf-8", errors="surrogateescape").write("\n".join(lines))
     return total
 
@@ -187,6 +227,8 @@ def main():
     ap.add_argument("--only", default=None)
     ap.add_argument("--keep", action="store_true")
     ap.add_argument("--headers", action="store_true", help="also edit functions defined in headers (re-extracts many units)")
+    ap.add_argument("--files", default=None, help="regex: every function defined in a matching file is an anchor")
+    ap.add_argument("--fn", default=None, help="regex: every function whose qualified name matches is an anchor")
     a = ap.parse_args()
     anch = tempfile.mktemp(prefix="vanch_", dir="/tmp")
     rc, out = run_check(a.pid, None, anchors=anch)
@@ -214,7 +256,7 @@ def main():
             continue
         if not a.headers and not f["file"].endswith((".cpp", ".cc", ".c")):
             continue
-        if f["q"] in want_q or (small and f["file"] in unit_files):
+        if f["q"] in want_q or (small and f["file"] in unit_files) or (a.files and re.search(a.files, f["file"])) or (a.fn and re.search(a.fn, f["q"])):
             if a.only and a.only not in f["q"]:
                 continue
             fns.append(f)
